@@ -47,7 +47,7 @@ Section Equations.
   Lemma fx_UnaryOp o x :
     fx (UnaryOp o x) =
       bind (fx x) (fun '(x', t, _, ev) =>
-        if unary_uses_lookup || negb (no_entry_shape x' t) then Ok (UnaryOp o x', t, [], ev) else Crash CkKey).
+        if unary_uses_lookup || negb (no_entry_shape x' t) then Ok (UnaryOp o x', unary_type o t, [], ev) else Crash CkKey).
   Proof. reflexivity. Qed.
   Lemma fx_BinOp o l r :
     fx (BinOp o l r) =
@@ -123,9 +123,29 @@ Section Equations.
                Ok (node, t, [], ev0 ++ ev0' ++ ev1 ++ ev2 ++ ev3)))))))).
   Proof. reflexivity. Qed.
 
-  (* callee that is neither an attribute nor a subscripted attribute *)
+  Lemma fx_Call_lambda ps b args kwn kwv :
+    fx (Call (Lambda ps b) args kwn kwv) =
+      bind (fl args) (fun '(args', ts, ev1) =>
+      bind (fl kwv) (fun '(kwv', _, ev2) =>
+        if called_ok ps args kwn kwv
+        then bind (follow_x W (bind_params ps ts G) b) (fun '(b', tb, _, ev3) =>
+               Ok (Call (Lambda ps b') args' kwn kwv', tb, [], ev1 ++ ev2 ++ ev3))
+        else Ok (Call (Lambda ps b) args' kwn kwv', TAny, [], ev1 ++ ev2))).
+  Proof. reflexivity. Qed.
+
+  (* callee that is neither an attribute, nor a subscripted attribute, nor a lambda *)
   Definition plain_callee (f : expr) : Prop :=
-    match f with Attr _ _ => False | Subscript (Attr _ _) _ => False | _ => True end.
+    match f with Attr _ _ => False | Subscript (Attr _ _) _ => False | Lambda _ _ => False | _ => True end.
+
+  (* the four kinds of callee *)
+  Lemma callee_cases (f : expr) :
+    (exists v a, f = Attr v a) \/ (exists v a s, f = Subscript (Attr v a) s) \/ (exists ps b, f = Lambda ps b) \/ plain_callee f.
+  Proof.
+    destruct f; try (right; right; right; exact I); try (left; eauto; fail); try (right; right; left; eauto; fail).
+    match goal with |- context [plain_callee (Subscript ?x ?y)] => destruct x end;
+      try (right; right; right; exact I).
+    right; left; eauto.
+  Qed.
 
   Lemma fx_Call_plain f args kwn kwv :
     plain_callee f ->
